@@ -54,7 +54,7 @@ WORKERS = {"quick": 8, "thorough": 16}
 BUDGET = {"quick": 60, "thorough": 900}
 ENV = {"OMP_NUM_THREADS": "2", "OMP_WAIT_POLICY": "passive"}  # 16 spinning threads on 40 atoms cost 0.5 s per call
 FAMILIES = ["contacts", "shape", "thermo", "rdf", "drid", "order"]
-NCASES = {"quick": 300, "thorough": 5000}  # per family
+NCASES = {"quick": 300, "thorough": 9000}  # per family
 FLOORS = {"quick": {"contacts.column": 700, "contacts.column.soft_min": 250, "contacts.column.periodic": 350, "contacts.pairs": 200,
                     "contacts.squareform": 5000, "com": 1000, "cog": 500, "rg": 180, "rg.masses": 60, "gyration": 1500, "inertia": 1500,
                     "pm": 500, "pm.trace": 180, "pm.det": 180, "asphericity": 180, "acylindricity": 180, "rsa": 100,
@@ -234,7 +234,8 @@ def _run_contacts(case, ctx, rng):
     periodic = bool(rng.random() < 0.6)
     soft = bool(rng.random() < 0.4)
     beta = float(rng.choice([20, 20, 5, 1, 50]))
-    ctx.observe("contacts.scheme", scheme)
+    if not case["big"]:
+        ctx.observe("contacts.scheme", scheme)
     ctx.observe("contacts.mode", mode + (":ignore_nonprotein" if mode == "all" and ignore_np else ""))
     ctx.observe("contacts.periodic", periodic)
     ctx.observe("contacts.soft_min", f"{soft}:beta={beta:g}" if soft else "False")
@@ -245,6 +246,7 @@ def _run_contacts(case, ctx, rng):
                        ("unequal-residue-sizes", len({len(r["atoms"]) for r in table}) > 1)):
         if cond:
             ctx.observe("contacts.feature", feat)
+    P, container = None, "str"
     if mode == "all":
         contacts = "all"
     else:
@@ -259,6 +261,17 @@ def _run_contacts(case, ctx, rng):
         container = "ndarray" if rng.random() < 0.5 else "list"
         ctx.observe("contacts.pairs-container", container)
         contacts = P if container == "ndarray" else [tuple(int(v) for v in p) for p in P]
+    # thorough tier: the same structure and request under every scheme (exhaustive over the scheme axis)
+    schemes = F.SCHEMES if case["big"] else [scheme]
+    for sch in schemes:
+        if len(schemes) > 1:
+            ctx.observe("contacts.scheme", sch)
+        _contacts_one(ctx, t, table, cellmode, sch, mode, ignore_np, periodic, soft, beta, contacts, P, container)
+
+
+def _contacts_one(ctx, t, table, cellmode, scheme, mode, ignore_np, periodic, soft, beta, contacts, P, container):
+    import mdtraj as md
+    from mdtraj.geometry import squareform
     n_ca = [sum(1 for i, n, s in r["atoms"] if n == "CA") for r in table]
     n_ca_ci = [sum(1 for i, n, s in r["atoms"] if n.upper() == "CA") for r in table]
     if n_ca != n_ca_ci:
@@ -433,7 +446,7 @@ def _run_contacts(case, ctx, rng):
             if cs is None:
                 if np.any(col != 0):
                     bad = (i, j, "non-zero entry for a pair that was not computed")
-            elif not any(np.array_equal(col, dist[:, c]) for c in cs):
+            elif not any(np.array_equal(col, dist[:, c], equal_nan=True) for c in cs):
                 bad = (i, j, "entry is not the column labelled with this residue pair")
     if bad:
         ctx.violation("contacts.squareform", "squareform:entry-does-not-match-label", f"contact_maps[:, {bad[0]}, {bad[1]}]: {bad[2]}")
@@ -705,15 +718,20 @@ def _run_thermo(case, ctx, rng):
     diam = _diameter(x)
     cellk = ["cubic", "ortho", "monoclinic", "hex120", "truncoct", "rhombdod", "triclinic"][int(rng.integers(7))]
     L, A = _make_cell(rng, cellk, 2.3 * diam)
-    B = common.cell_vectors64(L, A)
     Kres, Katom = int(rng.choice([0, 1, 2])), int(rng.choice([0, 0, 1]))
-    x = x + rng.uniform(0, 1, 3) @ B
-    if Kres:
-        x = x + np.repeat(rng.integers(-Kres, Kres + 1, (nf, nres, 3)), sizes, axis=1).astype(np.float64) @ B
-    if Katom:
-        x = x + rng.integers(-Katom, Katom + 1, (nf, na, 3)).astype(np.float64) @ B
-    t = md.Trajectory(x.astype(np.float32), top)
-    _set_cell(t, L, A)
+    t = md.Trajectory(np.zeros((nf, na, 3), np.float32), top)
+    # per-frame volume fluctuation (never below the half-cell requirement)
+    sc = 1.0 + (rng.uniform(0, 0.3, nf) if rng.random() < 0.6 else np.zeros(nf))
+    t.unitcell_lengths = (np.asarray(L)[None, :] * sc[:, None]).astype(np.float32)
+    t.unitcell_angles = np.tile(np.asarray(A, np.float32), (nf, 1))
+    Bf = t.unitcell_vectors.astype(np.float64)
+    for f in range(nf):
+        x[f] = x[f] + rng.uniform(0, 1, 3) @ Bf[f]
+        if Kres:
+            x[f] = x[f] + np.repeat(rng.integers(-Kres, Kres + 1, (nres, 3)), sizes, axis=0).astype(np.float64) @ Bf[f]
+        if Katom:
+            x[f] = x[f] + rng.integers(-Katom, Katom + 1, (na, 3)).astype(np.float64) @ Bf[f]
+    t.xyz = x.astype(np.float32)
     ctx.observe("thermo.cell", cellk)
     ctx.observe("thermo.dipole.scatter", f"residue+-{Kres},atom+-{Katom}")
     qk = ["neutral-residues", "random", "integer"][int(rng.integers(3))]
